@@ -161,18 +161,6 @@ theorem C10_validated_trace_is_run {c : Cfg} {σ' : Sys} (ls : List Label) (h : 
 
 /-! ### non-vacuity: concrete runs of the executable model -/
 
-/-- two steps, step 1 depends on step 0, both `by_dependencies` with recorded dependencies, pool 1 -/
-def demoChain : Cfg :=
-  { n := 2, deps := fun i => if i = 1 then [0] else [], pool := 1, rc := fun _ => run_calculated, noDeps := fun _ => false }
-
-/-- step 0 runs and succeeds, step 1 waits, sees it done, and starts its command -/
-def demoOk : List Label :=
-  [.publish 0, .handler 0 .RunConditional, .publish 0, .handler 0 .DependencyStepsFinishedSuccessfully, .publish 0] ++
-  toRunning 0 ++
-  [.publish 1, .handler 1 .RunConditional, .publish 1, .handler 1 .DependencyStepsRunning, .publish 1,
-   .procExit 0 true, .handler 0 .ProcessCompletedSuccessfully, .publish 0] ++ deliverN 0 10 ++
-  [.handler 1 .DependencyStepsFinishedSuccessfully, .publish 1] ++ toRunning 1
-
 /-- the hypotheses of `C10_deps_done_before_start` are satisfiable: the command of step 1 is running, after its
     dependency exited with status 0 -/
 example : (runL demoChain (init demoChain) demoOk).map
@@ -185,14 +173,6 @@ example : (runL demoChain (init demoChain)
      toRunning 0 ++ deliverN 0 9 ++
      [.publish 1, .handler 1 .RunConditional, .publish 1, .handler 1 .DependencyStepsRunning, .publish 1,
       .handler 1 .DependencyStepsFinishedSuccessfully])).isSome = false := by decide
-
-/-- step 0 fails, step 1 ends `Broken` without starting: hypotheses of `C10_failed_upstream_blocks` -/
-def demoFail : List Label :=
-  [.publish 0, .handler 0 .RunConditional, .publish 0, .handler 0 .DependencyStepsFinishedSuccessfully, .publish 0] ++
-  toRunning 0 ++
-  [.publish 1, .handler 1 .RunConditional, .publish 1, .handler 1 .DependencyStepsRunning, .publish 1,
-   .procExit 0 false, .handler 0 .ProcessReturnedNonZero, .publish 0] ++ deliverN 0 10 ++
-  [.handler 1 .DependencyStepsFinishedBroken, .publish 1]
 
 example : (runL demoChain (init demoChain) demoFail).map
     (fun σ => (decide (σ.loc 0 = .Broken), decide (σ.loc 1 = .Broken), decide (σ.proc 1 = .idle))) =
